@@ -21,6 +21,7 @@ def place_key(p):
 def proj_key(e):
     if isinstance(e, str):
         return e
+    e = list(e)
     if e[0] == "f":
         return "%s" % (e[4] if e[4] is not None else e[1])
     if e[0] == "d":
@@ -505,6 +506,14 @@ class Program:
             return None
         raise KeyError("ambiguous function %s: %s" % (name, [c.id for c in cands][:5]))
 
+    def named(self, name, within=None, crate=None):
+        """the unique non-closure function whose item name is `name` (optionally: id contains `within`)"""
+        cands = [f for f in self.fns.values() if f.kind != "Closure" and f.name == name
+                 and (within is None or within in f.id) and (crate is None or f.crate == crate)]
+        if len(cands) == 1:
+            return cands[0]
+        return None
+
     def fns_matching(self, pred, crate=None):
         out = []
         for f in self.fns.values():
@@ -803,3 +812,77 @@ def switch_true_false(fn, bb):
         if v == 1:
             return (tg, t[3])
     return None
+
+
+# ---------------------------------------------------------------------------------------------
+# Result / Option edges of a call, `?` included
+
+def _moves_of(fn, local):
+    """locals that receive `local` by plain move/copy (one step)"""
+    out = []
+    for bb, i, s in fn.stmts():
+        if s[0] == "=" and not s[1][1] and s[2][0] == "use" and op_local(s[2][1]) == local:
+            out.append(s[1][0])
+    return out
+
+
+def result_edges(fn, call):
+    """For a call returning Result/Option: list of dicts {sw, ok, err} (blocks) for every switch deciding on
+    its result, either directly (match / if let) or through `?` (Try::branch)."""
+    out = []
+    if call.dest[1]:
+        return out
+    d = call.dest[0]
+    cands = [d] + _moves_of(fn, d)
+    seen = set()
+    for loc in cands:
+        if loc in seen:
+            continue
+        seen.add(loc)
+        for (sw, m, other) in discr_branches(fn, loc):
+            ok = m.get("Ok", m.get("Some"))
+            err = m.get("Err", m.get("None"))
+            if ok is None and other is not None and err is not None:
+                ok = other
+            if err is None and other is not None and ok is not None:
+                err = other
+            out.append({"sw": sw, "ok": ok, "err": err, "via": "match"})
+        # through `?`
+        for c in fn.calls():
+            if c.declared == "std::ops::Try::branch" and c.args and op_local(c.args[0]) == loc and not c.dest[1]:
+                for (sw, m, other) in discr_branches(fn, c.dest[0]):
+                    ok = m.get("Continue")
+                    err = m.get("Break")
+                    if ok is None and other is not None:
+                        ok = other
+                    if err is None and other is not None:
+                        err = other
+                    out.append({"sw": sw, "ok": ok, "err": err, "via": "?"})
+    return out
+
+
+def edge_dominates(fn, edge, block):
+    """every path from entry to `block` uses edge (u,v)"""
+    if block not in fn.reachable(0):
+        return True
+    return block not in fn.reachable(0, avoid_edges=[edge])
+
+
+def blocks_dominate(fn, blocks, block):
+    """every path from entry to `block` passes through one of `blocks`"""
+    if block in blocks:
+        return True
+    return block not in fn.reachable(0, avoid_blocks=blocks)
+
+
+def loops_of(fn):
+    """natural loops as SCCs of the non-cleanup CFG, each with its exit edges"""
+    res = []
+    for comp in fn.sccs():
+        exits = []
+        for u in comp:
+            for v in fn.succ(u):
+                if v not in comp and fn.term(v)[0] != "unreachable":
+                    exits.append((u, v))
+        res.append({"blocks": comp, "exits": exits})
+    return res
